@@ -452,7 +452,9 @@ fn part1(ctx: &mut Ctx, rng: &mut Rng) {
         }
         // (d) the requirement is the burn fee divided by the elapsed time, rounded to the nearest nolan
         if let (Some(r), Ok(wv)) = (ref_work(bf, ts, prev, hb), w) {
-            if r != wv {
+            if r != wv && ctx.summary.distribution.get("burnfee.reference_mismatch").and_then(|m| m.get("reported")).copied().unwrap_or(0) < 2 {
+                // (only the first two are reported so that block-level replays are not crowded out)
+                ctx.summary.count("burnfee.reference_mismatch", "reported");
                 ctx.summary.oracle_failure(
                     case,
                     &format!(
